@@ -160,6 +160,20 @@ def step (st : St) (toks : List String) : St × String :=
       | .error .queryError => (st, "err QueryError")
       | .error (.setops e) => (st, showSetErr e)
     | _ => (st, "bad-op")
+  | "applysort" :: rev :: lim :: rest =>
+    match boolTok? rev, optInt? lim, tree? rest with
+    | some rev, some lim, some (t, []) =>
+      match (Score.apply st.kind st.s (lexOf st) t : Except ApplyErr (Option (AMap Int Float))) with
+      | .ok none => (st, "none")
+      | .ok (some m) =>
+        match TextSort.sort (.weighted m) rev lim with
+        | .ok (.same _) => (st, "same")
+        | .ok (.ids l) =>
+          (st, "S[" ++ " ".intercalate (l.map (fun d => s!"{d}:{showF ((AMap.get m d).getD 0)}")) ++ "]")
+        | .error _ => (st, "err TypeError")
+      | .error .queryError => (st, "err QueryError")
+      | .error (.setops e) => (st, showSetErr e)
+    | _, _, _ => (st, "bad-op")
   | "sort" :: rev :: lim :: rest =>
     match boolTok? rev, optInt? lim, pairs? rest with
     | some rev, some lim, some m =>
